@@ -34,6 +34,44 @@ def invocation(inv):
                    for c in inv])
 
 
+def pdefault(d):
+    k = d["k"]
+    if k == "empty":
+        return "DEmpty"
+    if k == "none":
+        return "DNone"
+    if k == "str":
+        return "(DStr %s)" % ct.s(d["v"])
+    if k == "int":
+        return "(DInt %s)" % ct.z(d["v"])
+    if k == "bool":
+        return "(DBool %s)" % ct.b(d["v"])
+    return "(DList %s)" % ct.strs(d["v"])
+
+
+def tsig(t):
+    ps = ct.lst(["(mkParam %s %s)" % (ct.s(n), pdefault(d)) for n, d in t["params"]])
+    pos = ct.opt(None if t.get("positional") is None else ct.strs(t["positional"]))
+    return "(mkSig %s (mkDeco %s %s %s %s %s))" % (
+        ps, pos, ct.strs(t.get("optional", [])), ct.strs(t.get("iterable", [])),
+        ct.strs(t.get("incrementable", [])), ct.b(t.get("auto_shortflags", True)))
+
+
+def sig_terms(sigs, specs):
+    """(index of the real context, signature) for every task whose context can be located by
+    its CLI name (underscores -> dashes, 'sub.' prefix for the sub-collection)"""
+    out = []
+    for t in sigs["tasks"]:
+        cli = t["name"].replace("_", "-")
+        if t.get("coll"):
+            cli = t["coll"].replace("_", "-") + "." + cli
+        for i, c in enumerate(specs):
+            if c["name"] == cli:
+                out.append(ct.pair(ct.n(i), tsig(t)))
+                break
+    return ct.lst(out)
+
+
 def flat(groups):
     return [t for g in groups for t in g]
 
@@ -134,8 +172,9 @@ class C01(Prop):
 
     def to_coq(self, case, obs):
         specs = pc.ctx_specs(case["sigs"])
-        return "(mk %s %s %s %s)" % (ct.lst([pc.ctxspec(c) for c in specs]), invocation(case["inv"]),
-                                     ct.strs(case["argv"]), ct.result(obs, pc.pobs))
+        return "(mk %s %s %s %s %s)" % (ct.lst([pc.ctxspec(c) for c in specs]), sig_terms(case["sigs"], specs),
+                                        invocation(case["inv"]), ct.strs(case["argv"]),
+                                        ct.result(obs, pc.pobs))
 
     def nontrivial(self, case, obs):
         n = sum(len(list(pc.flat_occs(c["occs"]))) for c in case["inv"])
